@@ -11,6 +11,7 @@ MANIFEST = dict(
 )
 GEN = ["Errors", "Timing"]
 THEOREMS = [
+    "c07_aux_code_classes", "c07_aux_message_total", "c07_err_text_carries",
     "c07_translated",
     "c07_total_classification",
     "c07_permanent_set_as_documented",
@@ -116,6 +117,73 @@ class Classify(Suite):
         return "classify/" + ("named" if o["named"] else "unnamed") + "/" + ("retryable" if o["retryable"] else "permanent")
 
 
+class ErrorHelpers(Suite):
+    """Supplementary: get_error_message, is_server_error, is_standard_jsonrpc_error,
+    is_mcp_specific_error and the exact exception text of _process_response against their
+    regenerated bodies (Gen/Errors, auxiliary part)."""
+    name = "error-helpers"
+    supplementary = True
+
+    def cases(self, ctx, budget):
+        codes = list(range(-32110, -31990)) + list(range(-32710, -32590)) + list(range(-5, 6)) + [100, 404, 499, 599, 2**31, -2**63, 2**63 - 1]
+        if budget != "quick":
+            codes = sorted(set(codes) | set(range(-33100, -31900)) | set(range(-200, 700)))
+        msgs = [None, "boom", "", "%s %d {0} {}", "é\u2028😀", "line1\nline2", " padded "]
+        out = []
+        for i, c in enumerate(codes):
+            out.append({"code": c, "msg": msgs[i % len(msgs)]})
+        rng = ctx.sub_rng("c07-helpers", budget)
+        for _ in range(200 if budget == "quick" else 5000):
+            out.append({"code": rng.randint(-2**63, 2**63 - 1), "msg": rng.choice(msgs)})
+        return out
+
+    def impl(self, case):
+        from chuk_mcp.protocol.types import errors as E
+        from chuk_mcp.protocol.messages.send_message import _process_response
+        from chuk_mcp.protocol.messages.json_rpc_message import JSONRPCMessage
+        c = case["code"]
+        err = {"code": c}
+        if case["msg"] is not None:
+            err["message"] = case["msg"]
+        try:
+            _process_response(JSONRPCMessage(id="x", error=err))
+            text = None
+        except (E.RetryableError, E.NonRetryableError) as ex:
+            text = str(ex)
+        except Exception as ex:  # noqa
+            text = "other:" + type(ex).__name__
+        return {"server": bool(E.is_server_error(c)), "standard": bool(E.is_standard_jsonrpc_error(c)),
+                "mcp": bool(E.is_mcp_specific_error(c)), "message": E.get_error_message(c), "text": text}
+
+    def model_line(self, case):
+        return {"m": "errors", "code": case["code"], "msg": case["msg"]}
+
+    def compare(self, case, o, m):
+        if not m.get("aux", True):
+            # the auxiliary part was not regenerated on this run: nothing to compare with
+            if not getattr(self, "_noted", False):
+                self._noted = True
+                print("INFO property=C07 supplementary=error-helpers: Gen/Errors auxiliary part not translatable from the current source; "
+                      "c07_aux_* / c07_err_text_carries hold vacuously on this run")
+            return None
+        for k in ("server", "standard", "mcp", "message", "text"):
+            if o[k] != m[k]:
+                return k
+        return None
+
+    def oracle(self, case, o):
+        # the one clause of the property these helpers touch: the exception carries the server's message
+        if case["msg"] is not None and (o["text"] is None or case["msg"] not in o["text"]):
+            return ("error-message-lost", f"error {case['code']} with message {case['msg']!r} surfaced as {o['text']!r}", {"text": case["msg"]})
+        return None
+
+    def kind(self, case, o):
+        return "helpers/" + ("server" if o["server"] else "standard" if o["standard"] else "other") + ("/msg" if case["msg"] is not None else "/nomsg")
+
+    def nontrivial(self, case, o):
+        return True
+
+
 def suites():
     from . import c07_errpath
-    return [Classify()] + c07_errpath.suites()
+    return [Classify()] + c07_errpath.suites() + [ErrorHelpers()]
